@@ -205,8 +205,8 @@ static int is_write_target(int fd) { return ready && fd == 1; }
 ssize_t read(int fd, void *buf, size_t count) {
     resolve();
     if (!is_read_target(fd)) return real_read(fd, buf, count);
-    entry_t e = ird < nrd ? rd[ird] : rd_default;
-    ird++;
+    int my = __atomic_fetch_add(&ird, 1, __ATOMIC_SEQ_CST); /* one schedule entry per call, also with several threads */
+    entry_t e = my < nrd ? rd[my] : rd_default;
     if (e.kind == 'e') {
         logline("r %d %zu e%ld -1 %ld\n", fd, count, e.arg, e.arg);
         errno = (int)e.arg;
@@ -224,8 +224,8 @@ ssize_t read(int fd, void *buf, size_t count) {
 ssize_t write(int fd, const void *buf, size_t count) {
     resolve();
     if (!is_write_target(fd)) return real_write(fd, buf, count);
-    entry_t e = iwr < nwr ? wr[iwr] : wr_default;
-    iwr++;
+    int my = __atomic_fetch_add(&iwr, 1, __ATOMIC_SEQ_CST);
+    entry_t e = my < nwr ? wr[my] : wr_default;
     if (e.kind == 'e') {
         logline("w %d %zu e%ld -1 %ld\n", fd, count, e.arg, e.arg);
         errno = (int)e.arg;
